@@ -152,6 +152,14 @@ def oracle(raw, ann, res):
         # crash points of this op (kill model)
         if kv.get("crash"):
             allowed = {show_exp(before), show_exp(exp)}
+            partial = set()
+            if op == "batch_delete":
+                cur = dict(before)
+                for x in (f["ids"].split(",") if f["ids"] != "-" else []):
+                    if int(x) in cur:
+                        cur.pop(int(x))
+                        partial.add(show_exp(cur))
+                partial -= allowed
             if op == "insert" and inflight_ok and f.get("accept") == "index":
                 # in-flight insert that will be refused by the index: its logged form may be visible
                 pass
@@ -164,6 +172,8 @@ def oracle(raw, ann, res):
                     continue
                 if o.startswith("err:"):
                     fails.append(("c01-restart-fails", i, "kill point (after %s actions) of `%s`: strict restart fails with %s" % (j, a[:60], o)))
+                elif o in partial:
+                    fails.append(("c01-batch-partial", i, "kill point inside `%s` recovers to %s: a proper prefix of the batch is applied" % (a[:60], o)))
                 elif o not in allowed:
                     if op == "insert" and f.get("accept") == "index":
                         fails.append(("c03-index-reject", i, "kill point of a refused insert recovers to %s, acknowledged state is %s" % (o, show_exp(before))))
